@@ -9538,6 +9538,14 @@ def _write_node(node, xml_tree=None, viewport_transform=None):
         _geometry(xml_tree, SVG_ATTR_CENTER_Y, node.cy)
         _geometry(xml_tree, SVG_ATTR_RADIUS_X, node.rx)
         _geometry(xml_tree, SVG_ATTR_RADIUS_Y, node.ry)
+    elif isinstance(node, Circle) and node.rx != node.ry:
+        # A circle reified under a non-uniform scale has two radii: it can only be written as an ellipse.
+        xml_tree = subxml(xml_tree, SVG_TAG_ELLIPSE)
+        _geometry(xml_tree, SVG_ATTR_CENTER_X, node.cx)
+        _geometry(xml_tree, SVG_ATTR_CENTER_Y, node.cy)
+        _geometry(xml_tree, SVG_ATTR_RADIUS_X, node.rx)
+        _geometry(xml_tree, SVG_ATTR_RADIUS_Y, node.ry)
+        _geometry(xml_tree, SVG_ATTR_RADIUS, None)
     elif isinstance(node, Circle):
         xml_tree = subxml(xml_tree, SVG_TAG_CIRCLE)
         _geometry(xml_tree, SVG_ATTR_CENTER_X, node.cx)
